@@ -1005,6 +1005,7 @@ func TestCheck(t *testing.T) {
 		return
 	}
 	runFixed(t, ck)
+	shadowEnum(t, ck)
 
 	defer func() { rec.Note("unprintable-values", unprintable) }()
 
